@@ -183,6 +183,15 @@ def generate(rng, tier, cls):
                                b'diff --git a/x b/x\n', b'--- a\n+++ b\n']) + data
 
         prod = {'id': 'P1', 'kind': 'raw', 'file': 'f1', 'hex': data.hex()}
+
+        if rng.chance(0.06):
+            # metadata nested far deeper than any parser recurses
+            prod = {'id': 'P1', 'kind': 'raw', 'file': 'f1',
+                    'nested': {'depth': rng.choice([50, 400, 990, 1100, 5000,
+                                                    100000]),
+                               'kind': rng.choice(['list', 'dict',
+                                                   'unclosed']),
+                               'where': rng.choice(['main', 'file'])}}
     else:
         data = b''.join(rng.choice(SOUP)
                         for _ in range(rng.randint(1, 14)))
